@@ -13,9 +13,9 @@ Lemma app_par_xor q r b : app_par (xorb q r) b = app_par q (app_par r b).
 Proof. destruct q, r; simpl; rewrite ?bcompl_invol; reflexivity. Qed.
 
 (* an assignment of bases to nucleotides (offset i of base sequence k is DAux (2k) i) satisfying the document *)
-Definition doc_sat (p : pspec) : Prop := exists al : dnode -> base,
+Definition doc_sat (p : pspec) (so : bool) : Prop := exists al : dnode -> base,
   (forall k n t i c, nth_error (p_bases p) k = Some (n, t) -> nth_error t i = Some c -> bmem (al (DAux (2 * k) i)) (gset c) = true) /\
-  (forall x y q, In (x, y, q) (Rc_links p) -> al y = app_par q (al x)).
+  (forall x y q, In (x, y, q) (Rc_links p so) -> al y = app_par q (al x)).
 
 (* ---- the declared nodes and their templates ---- *)
 Lemma combine_seq_nth {X} (t : list X) : forall s i c, In (i, c) (combine (seq s (List.length t)) t) -> s <= i /\ nth_error t (i - s) = Some c.
@@ -47,11 +47,12 @@ Proof. induction ss as [|[n [its l]] ss IH]; intros num0 x c H; simpl in H; [des
   - apply in_map_iff in H. destruct H as [i [E _]]. inversion E. reflexivity.
   - apply in_map_iff in H. destruct H as [i [E _]]. inversion E. reflexivity.
   - apply (IH _ x c H). Qed.
-Lemma d_nodes_In p x c : In (x, c) (d_nodes p) ->
+Lemma d_nodes_In p so x c : In (x, c) (d_nodes p so) ->
   c = Nc \/ exists k n t i, nth_error (p_bases p) k = Some (n, t) /\ nth_error t i = Some c /\ x = DAux (2 * k) i.
 Proof. unfold d_nodes. rewrite !in_app_iff. intros [H|[H|H]].
-  - left. unfold pos_nodes in H. apply in_flat_map in H. destruct H as [[n [[its len] d]] [_ H]].
-    apply in_map_iff in H. destruct H as [i [E _]]. inversion E. reflexivity.
+  - left. unfold pos_nodes in H. destruct so.
+    + apply in_flat_map in H. destruct H as [[n [[its s] len]] [_ H]]. apply in_map_iff in H. destruct H as [i [E _]]. inversion E. reflexivity.
+    + apply in_flat_map in H. destruct H as [[n [[its len] d]] [_ H]]. apply in_map_iff in H. destruct H as [i [E _]]. inversion E. reflexivity.
   - apply base_nodes_In in H. exact H.
   - left. apply (sup_nodes_In _ _ x c H). Qed.
 
@@ -68,100 +69,107 @@ Proof. unfold st_of. induction st as [|[k0 c0] st IH]; intros ND H; [destruct H|
 Section Sat.
 Variable p : pspec.
 Variable lay : layout.
+Variable so : bool.
 Variable g : cgraph.
-Hypothesis SOK : spec_okb p = true.
-Hypothesis DOK : dgraph_ok p lay = true.
-Hypothesis SAME : same_graph p lay g = true.
+Hypothesis SOK : spec_okb p so = true.
+Hypothesis DOK : dgraph_ok p lay so = true.
+Hypothesis SAME : same_graph p lay so g = true.
 Hypothesis GOK : graph_ok g = true.
 
-Let WF := spec_okb_wf p SOK.
+Let WF := spec_okb_wf p so SOK.
 Let e := enc p lay.
 
-Lemma keys_nodes : g_keys g = map e (nodes p).
-Proof. destruct (graph_ok_spec g GOK) as [_ [SK _]]. destruct (graph_links p lay g SAME) as [_ [_ GS]]. rewrite <- SK, GS. unfold nodes.
+Lemma keys_nodes : g_keys g = map e (nodes p so).
+Proof. destruct (graph_ok_spec g GOK) as [_ [SK _]]. destruct (graph_links p lay so g SAME) as [_ [_ GS]]. rewrite <- SK, GS. unfold nodes.
   rewrite !map_map. reflexivity. Qed.
 Lemma st_nodup : NoDup (map fst (g_st g)).
 Proof. destruct (graph_ok_spec g GOK) as [_ [SK _]]. rewrite SK, keys_nodes. apply sincr_NoDup.
   unfold dgraph_ok in DOK. apply andb_prop in DOK. apply DOK. Qed.
-Lemma node_template x c : In (x, c) (d_nodes p) -> st_of (g_st g) (e x) = c.
-Proof. intros H. apply st_of_In; [apply st_nodup|]. destruct (graph_links p lay g SAME) as [_ [_ GS]]. rewrite GS. apply in_map_iff. exists (x, c). auto. Qed.
+Lemma node_template x c : In (x, c) (d_nodes p so) -> st_of (g_st g) (e x) = c.
+Proof. intros H. apply st_of_In; [apply st_nodup|]. destruct (graph_links p lay so g SAME) as [_ [_ GS]]. rewrite GS. apply in_map_iff. exists (x, c). auto. Qed.
 
 (* every structural or real link lifts to connectivity in the seeded graph *)
-Lemma lift_conn x q y : pconn dnode (S_links p ++ R_links p) x q y -> gconn g (e x) q (e y).
-Proof. intros H. destruct (graph_links p lay g SAME) as [GE [GW _]]. unfold gconn. rewrite GE, GW. apply conn_pconn. rewrite nlinks_enc.
-  apply transfer_bwd. apply (pconn_mono dnode (S_links p ++ R_links p)); [|exact H]. intros l Hl. apply links_same. exact Hl. Qed.
+Lemma lift_conn x q y : pconn dnode (S_links p so ++ R_links p so) x q y -> gconn g (e x) q (e y).
+Proof. intros H. destruct (graph_links p lay so g SAME) as [GE [GW _]]. unfold gconn. rewrite GE, GW. apply conn_pconn. rewrite nlinks_enc.
+  apply transfer_bwd. apply (pconn_mono dnode (S_links p so ++ R_links p so)); [|exact H]. intros l Hl. apply links_same. exact Hl. Qed.
 
-Theorem sat_to_doc : (exists a, gsat g a) -> doc_sat p.
+Theorem sat_to_doc : (exists a, gsat g a) -> doc_sat p so.
 Proof. intros [a SA]. exists (fun c => a (e c)). split.
   - intros k n t i c Hk Hi. destruct SA as [ST _].
-    assert (Hin : In (DAux (2 * k) i, c) (d_nodes p)).
+    assert (Hin : In (DAux (2 * k) i, c) (d_nodes p so)).
     { unfold d_nodes. rewrite !in_app_iff. right. left. apply (base_nodes_has (p_bases p) 0 k n t i c Hk Hi). }
     pose proof (node_template _ _ Hin) as T. specialize (ST (e (DAux (2 * k) i))). unfold sem0 in ST. rewrite T in ST. apply ST.
     rewrite keys_nodes. apply in_map. unfold nodes. apply in_map_iff. exists (DAux (2 * k) i, c). auto.
-  - intros x y q H0. assert (H : pconn dnode (Rc_links p) x q y).
+  - intros x y q H0. assert (H : pconn dnode (Rc_links p so) x q y).
     { replace q with (xorb false q) by (destruct q; reflexivity). eapply pc_fwd; [constructor | exact H0]. }
-    apply (from_contracted dnode (kap p) (S_links p) (R_links p) (kap_reach p WF)) in H. apply lift_conn in H.
+    apply (from_contracted dnode (kap p so) (S_links p so) (R_links p so) (kap_reach p so WF)) in H. apply lift_conn in H.
     pose proof (sat_conn g (g_st g) a SA _ _ _ H) as Q. exact Q. Qed.
 
 (* decoding of positions back to declared nodes *)
-Definition dec (n : nat) : option dnode := find (fun x => Nat.eqb (e x) n) (nodes p).
-Lemma dec_enc x : In x (nodes p) -> dec (e x) = Some x.
+Definition dec (n : nat) : option dnode := find (fun x => Nat.eqb (e x) n) (nodes p so).
+Lemma dec_enc x : In x (nodes p so) -> dec (e x) = Some x.
 Proof. intros Vx. unfold dec. destruct (find _ _) as [y|] eqn:F.
-  - apply find_some in F. destruct F as [Vy E]. apply Nat.eqb_eq in E. f_equal. apply (enc_inj p lay DOK); assumption.
+  - apply find_some in F. destruct F as [Vy E]. apply Nat.eqb_eq in E. f_equal. apply (enc_inj p lay so DOK); assumption.
   - pose proof (find_none _ _ F x Vx) as E. cbn in E. rewrite Nat.eqb_refl in E. discriminate. Qed.
 
-Theorem doc_to_sat : doc_sat p -> exists a, gsat g a.
+Theorem doc_to_sat : doc_sat p so -> exists a, gsat g a.
 Proof. intros [al [TT RR]].
-  set (val := fun x : dnode => app_par (snd (kap p x)) (al (fst (kap p x)))).
+  set (val := fun x : dnode => app_par (snd (kap p so x)) (al (fst (kap p so x)))).
   exists (fun n => match dec n with Some x => val x | None => bA end).
-  assert (SL : forall x y q, In (x, y, q) (S_links p ++ R_links p) -> val y = app_par q (val x)).
+  assert (SL : forall x y q, In (x, y, q) (S_links p so ++ R_links p so) -> val y = app_par q (val x)).
   { intros x y q H. apply in_app_or in H. destruct H as [H|H].
-    - destruct (kap_struct p WF x y q H) as [E1 E2]. unfold val. rewrite E1, E2. rewrite app_par_xor.
-      destruct q, (snd (kap p y)); simpl; rewrite ?bcompl_invol; reflexivity.
-    - assert (HC : In (fst (kap p x), fst (kap p y), xorb q (xorb (snd (kap p x)) (snd (kap p y)))) (Rc_links p)).
+    - destruct (kap_struct p so WF x y q H) as [E1 E2]. unfold val. rewrite E1, E2. rewrite app_par_xor.
+      destruct q, (snd (kap p so y)); simpl; rewrite ?bcompl_invol; reflexivity.
+    - assert (HC : In (fst (kap p so x), fst (kap p so y), xorb q (xorb (snd (kap p so x)) (snd (kap p so y)))) (Rc_links p so)).
       { unfold Rc_links, Rc. apply in_map_iff. exists (x, y, q). auto. }
-      apply RR in HC. unfold val. rewrite HC. destruct q, (snd (kap p x)), (snd (kap p y)); simpl; rewrite ?bcompl_invol; reflexivity. }
-  assert (LK : forall x y q, In (x, y, q) (mk false (d_eq p) ++ mk true (d_wc p)) ->
+      apply RR in HC. unfold val. rewrite HC. destruct q, (snd (kap p so x)), (snd (kap p so y)); simpl; rewrite ?bcompl_invol; reflexivity. }
+  assert (LK : forall x y q, In (x, y, q) (mk false (d_eq p so) ++ mk true (d_wc p so)) ->
      match dec (e y) with Some u => val u | None => bA end = app_par q match dec (e x) with Some u => val u | None => bA end).
-  { intros x y q H. destruct (LL_valid p lay DOK x y q H) as [Vx Vy]. rewrite (dec_enc x Vx), (dec_enc y Vy). apply SL. apply links_same. exact H. }
-  destruct (graph_links p lay g SAME) as [GE [GW GS]]. split; [|split].
+  { intros x y q H. destruct (LL_valid p lay so DOK x y q H) as [Vx Vy]. rewrite (dec_enc x Vx), (dec_enc y Vy). apply SL. apply links_same. exact H. }
+  destruct (graph_links p lay so g SAME) as [GE [GW GS]]. split; [|split].
   - intros n Hn. rewrite keys_nodes in Hn. apply in_map_iff in Hn. destruct Hn as [x [<- Vx]]. fold e. rewrite (dec_enc x Vx).
     unfold nodes in Vx. apply in_map_iff in Vx. destruct Vx as [[x' c] [E Hin]]. simpl in E. subst x'.
-    unfold sem0. rewrite (node_template x c Hin). destruct (d_nodes_In p x c Hin) as [->|[k [n [t [i [A [B ->]]]]]]].
+    unfold sem0. rewrite (node_template x c Hin). destruct (d_nodes_In p so x c Hin) as [->|[k [n [t [i [A [B ->]]]]]]].
     + unfold gset, Nc. simpl. destruct (val x); reflexivity.
     + assert (KL : k < List.length (p_bases p)) by (apply nth_error_Some; rewrite A; discriminate).
-      assert (KE : kap p (DAux (2 * k) i) = (DAux (2 * k) i, false)).
+      assert (KE : kap p so (DAux (2 * k) i) = (DAux (2 * k) i, false)).
       { unfold kap. replace (2 * k <? 2 * List.length (p_bases p)) with true by (symmetry; apply Nat.ltb_lt; lia). rewrite even_2k. reflexivity. }
       unfold val. rewrite KE. simpl. apply (TT k n t i c A B).
   - intros u v H. rewrite GE in H. unfold enc_links in H. apply in_map_iff in H. destruct H as [[x y] [E Hin]]. simpl in E. inversion E; subst.
-    assert (HL : In (x, y, false) (mk false (d_eq p) ++ mk true (d_wc p))) by (apply in_or_app; left; apply In_mk; auto).
+    assert (HL : In (x, y, false) (mk false (d_eq p so) ++ mk true (d_wc p so))) by (apply in_or_app; left; apply In_mk; auto).
     pose proof (LK x y false HL) as Q. simpl in Q. fold e. rewrite Q. reflexivity.
   - intros u v H. rewrite GW in H. unfold enc_links in H. apply in_map_iff in H. destruct H as [[x y] [E Hin]]. simpl in E. inversion E; subst.
-    assert (HL : In (x, y, true) (mk false (d_eq p) ++ mk true (d_wc p))) by (apply in_or_app; right; apply In_mk; auto).
+    assert (HL : In (x, y, true) (mk false (d_eq p so) ++ mk true (d_wc p so))) by (apply in_or_app; right; apply In_mk; auto).
     pose proof (LK x y true HL) as Q. simpl in Q. fold e. rewrite Q, bcompl_invol. reflexivity. Qed.
 
-Theorem gsat_iff_doc_sat : (exists a, gsat g a) <-> doc_sat p.
+Theorem gsat_iff_doc_sat : (exists a, gsat g a) <-> doc_sat p so.
 Proof. split; [apply sat_to_doc | apply doc_to_sat]. Qed.
 End Sat.
 
-(* constraint generation (strand layout) reports over-constraint exactly when the document is unsatisfiable *)
-Theorem over_iff_document_unsat p lay g : seed p false = OK (lay, g) -> graph_ok g = true ->
-  spec_okb p = true -> dgraph_ok p lay = true -> same_graph p lay g = true ->
-  (get_constraints p false = DOver <-> ~ doc_sat p).
-Proof. intros SEED GOK SOK DOK SAME. rewrite (over_iff_unsat p false lay g SEED GOK).
-  rewrite (gsat_iff_doc_sat p lay g SOK DOK SAME GOK). tauto. Qed.
+(* constraint generation reports over-constraint exactly when the document is unsatisfiable (either layout) *)
+Theorem over_iff_document_unsat p so lay g : seed p so = OK (lay, g) -> graph_ok g = true ->
+  spec_okb p so = true -> dgraph_ok p lay so = true -> same_graph p lay so g = true ->
+  (get_constraints p so = DOver <-> ~ doc_sat p so).
+Proof. intros SEED GOK SOK DOK SAME. rewrite (over_iff_unsat p so lay g SEED GOK).
+  rewrite (gsat_iff_doc_sat p lay so g SOK DOK SAME GOK). tauto. Qed.
 
-(* the hypotheses are met by a concrete document: two sequences, a super-sequence with a reversed
-   item, two strands pairing over their whole length, an equal statement *)
+(* the hypotheses are met, in both layouts, by a concrete document: sequences, a super-sequence with a
+   reversed item, two strands pairing over their whole length, a second structure in which one
+   strand occurs twice, an equal statement *)
 Definition demo_spec : pspec :=
   {| p_bases := [("a"%string, ["N"; "N"; "S"]%char); ("b"%string, ["W"; "N"]%char); ("c"%string, ["N"; "N"]%char)];
      p_sups := [("ab"%string, ([SB "a" false; SB "b" true], 5))];
      p_strands := [("s1"%string, ([SS "ab" false], 5, false)); ("s2"%string, ([SB "c" false; SB "a" true], 5, false))];
-     p_structs := [("D"%string, (["s1"; "s2"]%string, [Open; Open; Open; Open; Open; Plus; Close; Close; Close; Close; Close], 10))];
+     p_structs := [("D"%string, (["s1"; "s2"]%string, [Open; Open; Open; Open; Open; Plus; Close; Close; Close; Close; Close], 10));
+                   ("E"%string, (["s2"; "s1"; "s2"]%string, [Dot; Dot; Dot; Dot; Dot; Plus; Open; Open; Open; Open; Open; Plus; Close; Close; Close; Close; Close], 15))];
      p_equals := [[SB "b" false; SB "c" false]] |}.
-Example demo_hypotheses : exists lay g, seed demo_spec false = OK (lay, g) /\ graph_ok g = true /\
-  spec_okb demo_spec = true /\ dgraph_ok demo_spec lay = true /\ same_graph demo_spec lay g = true /\
-  exists e w s, get_constraints demo_spec false = DOk e w s.
-Proof. destruct (seed demo_spec false) as [[lay g]|k] eqn:E; [|vm_compute in E; discriminate].
-  exists lay, g. split; [reflexivity|]. vm_compute in E. inversion E; subst. repeat split; try (vm_compute; reflexivity).
-  vm_compute. eauto. Qed.
+Example demo_hypotheses : forall so, exists lay g, seed demo_spec so = OK (lay, g) /\ graph_ok g = true /\
+  spec_okb demo_spec so = true /\ dgraph_ok demo_spec lay so = true /\ same_graph demo_spec lay so g = true /\
+  exists e w s, get_constraints demo_spec so = DOk e w s.
+Proof. intros so. destruct so.
+  - destruct (seed demo_spec true) as [[lay g]|k] eqn:E; [|vm_compute in E; discriminate].
+    exists lay, g. split; [reflexivity|]. vm_compute in E. inversion E; subst. repeat split; try (vm_compute; reflexivity).
+    vm_compute. eauto.
+  - destruct (seed demo_spec false) as [[lay g]|k] eqn:E; [|vm_compute in E; discriminate].
+    exists lay, g. split; [reflexivity|]. vm_compute in E. inversion E; subst. repeat split; try (vm_compute; reflexivity).
+    vm_compute. eauto. Qed.
